@@ -6,13 +6,15 @@ import math
 
 from harness.core import Prop
 
+OFF = 10000          # an int cell of row p (1 <= p < OFF) in column c holds p + OFF * (c - 1)
+SRC_ROWS = 8000      # rows of the source table: the largest result a behaviour may ask for
 SHAPES = {
     # shape -> list of (select expression, kind); cell (p, c) is distinguishable from every other cell
     "one": [("id as a", "int")],
-    "three": [("id as a", "int"), ("id + 100 as b", "int"), ("id + 200 as c", "int")],
-    "dup": [("id as a", "int"), ("id + 100 as a", "int")],
-    "aliasdup": [("id as x", "int"), ("id + 100 as b", "int"), ("id + 200 as x", "int")],
-    "quoted": [('id as "My Col"', "int"), ('id + 100 as "a"', "int")],
+    "three": [("id as a", "int"), (f"id + {OFF} as b", "int"), (f"id + {2 * OFF} as c", "int")],
+    "dup": [("id as a", "int"), (f"id + {OFF} as a", "int")],
+    "aliasdup": [("id as x", "int"), (f"id + {OFF} as b", "int"), (f"id + {2 * OFF} as x", "int")],
+    "quoted": [('id as "My Col"', "int"), (f'id + {OFF} as "a"', "int")],
     "dml": [("<affected count>", "count")],
     "star0": [("id", "int"), ("name", "int")], "star1": [("id", "int"), ("label", "int"), ("score", "int")],
     "types": [
@@ -28,7 +30,7 @@ SHAPES = {
 
 
 def cell(kind: str, p: int, c: int):
-    off = 100 * (c - 1)
+    off = OFF * (c - 1)
     if kind == "int":
         return p + off
     if kind == "str":
@@ -70,7 +72,7 @@ def decode_row(shape: str, values: list) -> tuple[int, list[int]]:
     for v in values:  # the position is recoverable from any int cell
         if isinstance(v, int) and not isinstance(v, bool) or hasattr(v, "__int__") and not isinstance(v, (bool, float, str)):
             try:
-                pos = int(v) % 100
+                pos = int(v) % OFF
                 break
             except Exception:
                 pass
@@ -112,6 +114,17 @@ def _norm(v):
     return v
 
 
+def runs(pos: list[int]) -> list[list[int]]:
+    """the positions as maximal runs [first, last] of consecutive positions (loses nothing; FsCursorJudge expands it)"""
+    out: list[list[int]] = []
+    for p in pos:
+        if out and p == out[-1][1] + 1:
+            out[-1][1] = p
+        else:
+            out.append([p, p])
+    return out
+
+
 def rows_obs(shape: str, rows: list, names: list[str], rc) -> dict:
     pos, colsets = [], []
     for r in rows:
@@ -119,10 +132,11 @@ def rows_obs(shape: str, rows: list, names: list[str], rc) -> dict:
         pos.append(p)
         colsets.append(cols)
     cols = colsets[0] if colsets and all(c == colsets[0] for c in colsets) else ([-1] if colsets else [])
-    return {"res": "rows", "rows": pos, "cols": cols, "names": names, "rc": -1 if rc is None else int(rc)}
+    return {"res": "rows", "rows": runs(pos), "cols": cols, "names": names, "rc": -1 if rc is None else int(rc)}
 
 
 _FS = None
+BIG = 997            # scale of the large results (see FsCursor!Scale)
 ALLOPS = {"open", "exec", "dml", "reshape", "execfail", "one", "many", "manydef", "all", "pandas", "asz", "descr"}
 NORESHAPE = ALLOPS - {"reshape"}
 
@@ -133,7 +147,8 @@ class C05(Prop):
     gen_module = "FsCursorGen"
     judge_module = "FsCursorJudge"
     assumptions = [
-        "bounds: n <= MaxN rows, fetchmany sizes <= MaxK, arraysize <= MaxA, six result shapes "
+        "bounds: n <= MaxN * Scale rows, fetchmany sizes <= MaxK * Scale, arraysize <= MaxA * Scale (Scale 1, and 997 for results "
+        "of thousands of rows), six result shapes "
         "(1/3/7 columns, repeated names, aliased repeats, quoted names, seven value types incl. NULL)",
         "a failed execute may keep or drop the previous result set (the property is silent)",
     ]
@@ -141,16 +156,19 @@ class C05(Prop):
                "SetArraysize", "FetchPandasAll", "ReadDescription"]
 
     def consts(self, tier):
-        return {"MaxN": 3, "MaxK": 4, "MaxA": 2, "ShapesUsed": {"three", "dup"}, "ViaUsed": {"x"}, "OpsUsed": ALLOPS, "MinN": 0}
+        return {"MaxN": 3, "MaxK": 4, "MaxA": 2, "ShapesUsed": {"three", "dup"}, "ViaUsed": {"x"}, "OpsUsed": ALLOPS, "MinN": 0, "Scale": 1}
 
     def model_checks(self, tier):
         big = tier == "thorough"
         c = {"MaxN": 4 if big else 3, "MaxK": 5 if big else 4, "MaxA": 3 if big else 2,
              "ShapesUsed": {"one", "three", "dup", "aliasdup", "quoted", "types"}, "ViaUsed": {"x", "s1", "s2"}, "Devs": set(),
-             "Depth": 12 if big else 10, "OpsUsed": NORESHAPE, "MinN": 0}
+             "Depth": 12 if big else 10, "OpsUsed": NORESHAPE, "MinN": 0, "Scale": 1}
         inv = ["StepInv", "ExactlyOnce", "Drained", "NoResult", "Replace"]
         out = [dict(name="mc_ideal", consts=c, invariants=inv, properties=["Monotone"], constraint="Bound",
                     view="ViewSt", coverage=True, actions=self.ACTIONS)]
+        # the same invariants on results of thousands of rows (n, fetch sizes and arraysize are multiples of BIG; fetchone = 1 row)
+        cb = dict(c, Scale=BIG, MaxN=2, MaxK=2, MaxA=2, ShapesUsed={"three", "aliasdup"}, ViaUsed={"x"}, Depth=6 if big else 5)
+        out.append(dict(name="mc_ideal_big", consts=cb, invariants=inv, properties=["Monotone"], constraint="Bound", view="ViewSt"))
         cd = dict(c, Devs={"C05.dup_names_tuple_width"}, ShapesUsed={"dup"}, MaxN=2, Depth=4)
         out.append(dict(name="mc_dev_dup", consts=cd, invariants=inv, constraint="Bound", view="ViewSt",
                         devs=["C05.dup_names_tuple_width"], workers=1))
@@ -162,7 +180,8 @@ class C05(Prop):
     def generations(self, tier, seed):
         big = tier == "thorough"
         all_shapes = {"one", "three", "dup", "aliasdup", "quoted", "types"}
-        base = {"Devs": set(), "ViaUsed": {"x"}, "OpsUsed": NORESHAPE, "MinN": 0}
+        base = {"Devs": set(), "ViaUsed": {"x"}, "OpsUsed": NORESHAPE, "MinN": 0, "Scale": 1}
+        fetching = {"open", "exec", "one", "many", "manydef", "all", "pandas", "asz"}
         g = [
             # dense small vocabularies (all sequences): a failing execute between fetches; the same SELECT * text over a table whose
             # columns change in between, on tuple and dict cursors
@@ -183,7 +202,18 @@ class C05(Prop):
             dict(name="walks", mode="walks", depth=14, num=3000 if big else 500,
                  consts=dict(base, MaxN=4, MaxK=5, MaxA=3, ShapesUsed=all_shapes | {"star"}, Depth=14, ViaUsed={"x", "s1", "s2"}, OpsUsed=ALLOPS)),
         ]
+        # large results (n, fetch sizes, arraysize = multiples of a scale that is not a round number; fetchone = one row): the
+        # same abstract behaviours, concretised so that single fetches span and start at every offset of whatever batches /
+        # chunks / windows the implementation cuts a result into
+        g += [
+            dict(name="paths_big", mode="paths", sample=None if big else 200,
+                 consts=dict(base, Scale=BIG, MinN=2, MaxN=3, MaxK=2, MaxA=2, ShapesUsed={"three"}, OpsUsed=fetching, Depth=5)),
+            dict(name="walks_big", mode="walks", next="NextWalkByCall", depth=12, num=800 if big else 150, seed_offset=2,
+                 consts=dict(base, Scale=BIG, MaxN=4, MaxK=3, MaxA=2, ShapesUsed=all_shapes | {"star"}, Depth=12, ViaUsed={"x", "s1", "s2"}, OpsUsed=ALLOPS)),
+        ]
         if big:
+            g.append(dict(name="walks_big2", mode="walks", next="NextWalkByCall", depth=12, num=400, seed_offset=3,
+                          consts=dict(base, Scale=1500, MaxN=4, MaxK=3, MaxA=2, ShapesUsed=all_shapes | {"star"}, Depth=12, ViaUsed={"x", "s1", "s2"}, OpsUsed=ALLOPS)))
             g.append(dict(name="walks_long", mode="walks", depth=40, num=1500, seed_offset=1,
                           consts=dict(base, MaxN=6, MaxK=7, MaxA=4, ShapesUsed=all_shapes | {"star"}, Depth=40, ViaUsed={"x", "s1", "s2"}, OpsUsed=ALLOPS)))
         return g
@@ -205,7 +235,8 @@ class C05(Prop):
             setup = _FS.connect("DB1", "S1").cursor()
             setup.execute("create table src (id int)")
             setup.execute("create table scr (id int)")
-            setup.execute("insert into src values " + ",".join(f"({i})" for i in range(1, 21)))
+            setup.execute("insert into src values " + ",".join(f"({i})" for i in range(1, 101)))
+            setup.execute(f"insert into src select a.id + 100 * b.id from src a, src b where b.id <= {SRC_ROWS // 100 - 1}")
         conn = _FS.connect("DB1", "S1")
         cur = None
         lay = [0, False]          # layout of shp, and whether shp has been made for this behaviour
@@ -213,9 +244,9 @@ class C05(Prop):
         def make_shp():
             c2 = conn.cursor()
             if lay[0] == 0:
-                c2.execute("create or replace table shp as select id, id + 100 as name from src")
+                c2.execute(f"create or replace table shp as select id, id + {OFF} as name from src")
             else:
-                c2.execute("create or replace table shp as select id, id + 100 as label, id + 200 as score from src")
+                c2.execute(f"create or replace table shp as select id, id + {OFF} as label, id + {2 * OFF} as score from src")
             lay[1] = True
 
         shape = "one"
@@ -231,6 +262,8 @@ class C05(Prop):
 
         for op in ops:
             k = op["k"]
+            if k == "exec" and not 0 <= int(op["n"]) <= SRC_ROWS:      # a generator asking for more than the driver can build
+                raise ValueError(f"the driver's source table has {SRC_ROWS} rows, asked for {op['n']}")
             try:
                 if k == "open":
                     isdict = bool(op["dict"])
@@ -307,7 +340,8 @@ class C05(Prop):
                     except snowflake.connector.NotSupportedError:
                         obs = plain("noresult")
                     else:
-                        rows = [list(df.iloc[i, :]) for i in range(len(df))]
+                        # row by row, every cell as the frame's column holds it (no row-wise upcasting across columns)
+                        rows = [list(r) for r in df.itertuples(index=False, name=None)]
                         obs = rows_obs(shape, rows, [str(c) for c in df.columns], cur.rowcount)
                 elif k == "descr":
                     d = cur.description
